@@ -96,7 +96,91 @@ func (x *Exec) evalRealCall(n *ast.CallExpr, st *State, env *Env) Val {
 			return x.callContract(fi, con, recv, args, st, n)
 		}
 	}
+	// a small helper of the repository without a contract (loop-free, no closures / goroutines / defer, not generic):
+	// its body is executed in place, so that extracting code into such a helper does not lose the proof
+	if fi := x.g.funcByObj[fn.Origin()]; fi != nil && x.inlineDepth < 3 && inlinableBody(fi) {
+		var args []Val
+		for i, a := range n.Args {
+			v := x.eval(a, st, env)
+			pt := paramType(fi.Sig, i)
+			if pt != nil {
+				v = x.coerce(v, pt)
+				if v.Nil {
+					v = Val{T: x.c.zero(pt), Ty: pt}
+				}
+			}
+			args = append(args, v)
+		}
+		return x.inlineBody(fi, recv, args, st, n)
+	}
 	return x.callUnknown(full, fn, recv, n, st, env)
+}
+
+// inlinableBody: straight-line / branching code only.
+func inlinableBody(fi *FuncInfo) bool {
+	if fi.Body == nil || fi.Sig.Variadic() || fi.Sig.TypeParams().Len() > 0 || fi.Sig.RecvTypeParams().Len() > 0 {
+		return false
+	}
+	ok := true
+	n := 0
+	ast.Inspect(fi.Body, func(nd ast.Node) bool {
+		switch nd.(type) {
+		case *ast.ForStmt, *ast.RangeStmt, *ast.GoStmt, *ast.DeferStmt, *ast.SelectStmt, *ast.FuncLit, *ast.LabeledStmt, *ast.SendStmt:
+			ok = false
+		case ast.Stmt:
+			n++
+		}
+		return ok
+	})
+	return ok && n <= 40
+}
+
+// inlineBody executes the callee's body on the caller's state with the parameters bound to the argument values; the
+// callee's safety obligations become obligations of the caller (named after the callee).
+func (x *Exec) inlineBody(fi *FuncInfo, recv *Val, args []Val, st *State, node ast.Node) Val {
+	sub := &Exec{g: x.g, c: x.c, fi: fi, names: x.names, ord: map[ast.Node]int{}, loopOrd: map[ast.Node]int{}, anchors: map[ast.Stmt][]string{},
+		usedContracts: x.usedContracts, entry: x.entry, alloc0: x.alloc0, modAll: x.modAll, modRefs: x.modRefs, loopStack: x.loopStack,
+		inlineDepth: x.inlineDepth + 1, baseNames: map[string]Val{}, usedPoints: map[int]bool{}}
+	sub.prepass()
+	work := st.clone()
+	sig := fi.Sig
+	if r := sig.Recv(); r != nil && recv != nil {
+		work.vars[r] = *recv
+	}
+	for i := 0; i < sig.Params().Len() && i < len(args); i++ {
+		work.vars[sig.Params().At(i)] = args[i]
+	}
+	for i := 0; i < sig.Results().Len(); i++ {
+		r := sig.Results().At(i)
+		ro := types.NewVar(token.NoPos, fi.Pkg.Types, fmt.Sprintf("result%d", i+1), r.Type())
+		sub.results = append(sub.results, ro)
+		if r.Name() != "" && r.Name() != "_" {
+			work.vars[r] = Val{T: x.c.zero(r.Type()), Ty: r.Type()}
+		}
+	}
+	cenv := &Env{info: fi.Pkg.TypesInfo}
+	sub.codeEnv = cenv
+	// inside a contract expression / sort axiom (inContract > 0) terms may mention bound variables: keep that mode
+	fl := sub.execBlock(fi.Body.List, work, cenv)
+	final := fl.ret
+	if sig.Results().Len() == 0 {
+		final = sub.merge(final, fl.normal)
+	}
+	x.obligs = append(x.obligs, sub.obligs...)
+	x.c.notes["call to "+fi.Key+" (no contract, loop-free): body executed in place"] = true
+	if final == nil {
+		st.pc = "false"
+		return Val{}
+	}
+	st.heaps, st.alloc, st.gh, st.pc = final.heaps, final.alloc, final.gh, final.pc
+	var results []Val
+	for _, ro := range sub.results {
+		results = append(results, final.vars[ro])
+	}
+	if len(results) == 0 {
+		return Val{}
+	}
+	return x.tupleOrSingle(results)
 }
 
 func instType(pt types.Type, v Val) types.Type {
